@@ -370,18 +370,31 @@ func (w *c09Walker) visit(box bo.Box, parent bo.Box) {
 			w.fail("out-of-flow-not-blockified:"+box.Type().String(), "%s is floated or absolutely positioned but is not block-level", name)
 		}
 	}
-	// display:none subtrees generate nothing
+	w.checkNone(box)
+	for _, c := range bf.Children {
+		w.visit(c, box)
+	}
+}
+
+// display:none subtrees generate nothing
+func (w *c09Walker) checkNone(box bo.Box) {
+	bf := box.Box()
+	name := c09Name(box)
 	if el := bf.Element; el != nil {
 		for e := (*utils.HTMLNode)(el); e != nil && e.Type == 3; e = (*utils.HTMLNode)(e.Parent) { // html.ElementNode
 			st := w.style(e)
-			if st != nil && st.GetDisplay().Has("none") {
+			// (the style attribute is read too: box building is free to edit the computed style it was given)
+			none := st != nil && st.GetDisplay().Has("none")
+			if !none && strings.Contains(e.Get("style"), "display:none") {
+				// the root element always gets a (childless) box, whatever its display: the page needs one
+				isOwnRoot := e == (*utils.HTMLNode)(el) && (e.Parent == nil || e.Parent.Type != 3)
+				none = !isOwnRoot
+			}
+			if none {
 				w.fail("box-in-display-none", "%s exists although <%s> has display:none", name, e.Data)
 				break
 			}
 		}
-	}
-	for _, c := range bf.Children {
-		w.visit(c, box)
 	}
 }
 
@@ -475,10 +488,15 @@ func c09Check(ci interface{}) Verdict {
 	if err != nil {
 		return Verdict{Excluded: "rejected-by-NewHTML"}
 	}
-	root, sf := wr.BuildBoxesStyle(h, nil, c.Hints, wr.SharedFC("pango"))
+	root, sf, footnotes := wr.BuildBoxesAll(h, nil, c.Hints, wr.SharedFC("pango"))
 	w := &c09Walker{labels: map[string]bool{}}
 	w.style = func(el *utils.HTMLNode) pr.ElementStyle { return sf.Get(el, "") }
 	w.visit(root, nil)
+	// the footnote boxes are kept beside the tree until layout
+	for _, fb := range footnotes {
+		w.labels["footnote-box"] = true
+		wr.WalkBoxes(fb, func(b bo.Box) bool { w.checkNone(b); return true })
+	}
 	var labels []string
 	for l := range w.labels {
 		labels = append(labels, l)
